@@ -20,13 +20,16 @@ pub mod wire;
 pub mod rig;
 pub mod frontend;
 pub mod rscript;
+pub mod wscript;
 
 pub mod c01_reader;
 pub mod c03_acknack;
+pub mod c04_writer;
 pub mod c05_frag;
 pub mod c06_hostile;
 pub mod c10_qos;
 pub mod c14_msg;
+pub mod c20_waitack;
 
 use std::fmt::Write as _;
 
@@ -143,9 +146,11 @@ pub fn registry() -> Vec<Property> {
   let mut v = Vec::new();
   v.push(c01_reader::property());
   v.push(c03_acknack::property());
+  v.push(c04_writer::property());
   v.push(c05_frag::property());
   v.push(c06_hostile::property());
   v.push(c10_qos::property());
   v.push(c14_msg::property());
+  v.push(c20_waitack::property());
   v
 }
